@@ -23,6 +23,7 @@ type PropConfig struct {
 	Claim       string   `json:"claim"`
 	NotDecided  []string `json:"not_decided"`
 	Assumptions []string `json:"assumptions"`
+	Sweep       []string `json:"sweep"` // package names: every function is verified, only clauses tagged with the property are kept
 }
 
 type KnownFinding struct {
@@ -138,6 +139,13 @@ func checkMain(args []string) {
 		os.Exit(1)
 	}
 	loadS := time.Since(start).Seconds()
+	{
+		pinned := map[string][]string{}
+		if b, err := os.ReadFile(filepath.Join(*verif, "contracts", "pins.json")); err == nil {
+			json.Unmarshal(b, &pinned)
+		}
+		prog.localPinList = pinned["_locals"]
+	}
 	known := loadKnownFindings(filepath.Join(*verif, "known_findings.txt"))
 	// select functions
 	selected := map[string]bool{}
@@ -177,6 +185,9 @@ func checkMain(args []string) {
 			}
 		}
 	}
+	// declarations about types and globals, implementers of interface contracts, package sweeps (decls.go)
+	var declProblems []string
+	results, declProblems = prog.declResults(prop, cfg, results, done)
 	seenSpec := map[string]bool{}
 	for i := 0; i < len(results); i++ {
 		for _, sc := range results[i].SpecChecks {
@@ -200,7 +211,7 @@ func checkMain(args []string) {
 	for _, r := range results {
 		var keep []*Obligation
 		for _, o := range r.Obligations {
-			ok := len(o.Props) == 0
+			ok := len(o.Props) == 0 && !r.TaggedOnly
 			for _, p := range o.Props {
 				if p == prop {
 					ok = true
@@ -306,6 +317,9 @@ func checkMain(args []string) {
 			report("contracts#unresolved#"+sanitize(name), "the contract names a function that does not exist in the loaded packages (contract out of date): "+name, map[string]any{"contract": name, "file": c.File})
 		}
 	}
+	for _, dp := range declProblems {
+		report("decls#"+sanitize(truncate(dp, 80)), dp, map[string]any{})
+	}
 	for _, e := range prog.contracts.Errors {
 		report("contracts#parse", "contract file does not parse: "+e, map[string]any{})
 	}
@@ -342,13 +356,42 @@ func checkMain(args []string) {
 	var clauseNames []string
 	for _, n := range aggOrder {
 		k := aggs[n].kind
-		if k == "ensures" || k == "inv-entry" || k == "inv-preserved" || k == "decreases" || k == "lemma" || k == "call-requires" || k == "protocol" {
+		if k == "ensures" || k == "inv-entry" || k == "inv-preserved" || k == "decreases" || k == "lemma" || k == "call-requires" || k == "protocol" || k == "typeinv" || k == "captures" || k == "globalinv" {
 			clauseNames = append(clauseNames, n)
 		}
 	}
 	sort.Strings(clauseNames)
 	if *pin {
 		pins[prop] = clauseNames
+		// locals named in loop invariants: replace this property's functions' entries
+		mine := map[string]bool{}
+		var add []string
+		for _, r := range results {
+			if r.Contract == nil {
+				continue
+			}
+			n := r.Contract.Name
+			if n == "" {
+				n = r.Name
+			}
+			mine[n] = true
+			add = append(add, prog.localPins(n, r.Contract)...)
+		}
+		var keepL []string
+		for _, e := range pins["_locals"] {
+			if i := strings.Index(e, "|"); i > 0 && !mine[e[:i]] {
+				keepL = append(keepL, e)
+			}
+		}
+		keepL = append(keepL, add...)
+		sort.Strings(keepL)
+		var dedup []string
+		for i, e := range keepL {
+			if i == 0 || e != keepL[i-1] {
+				dedup = append(dedup, e)
+			}
+		}
+		pins["_locals"] = dedup
 		b, _ := json.MarshalIndent(pins, "", " ")
 		os.WriteFile(pinsPath, b, 0o644)
 	} else if want, ok := pins[prop]; ok {
